@@ -445,10 +445,74 @@ func (c *Ctx) tableModePairs(fn *ssa.Function) map[string]bool {
 	return out
 }
 
+// importedConst looks a constant of an imported package up ("os", "ModeType").
+func (c *Ctx) importedConst(pkgPath, name string) (string, bool) {
+	for _, imp := range c.Lib.Types.Imports() {
+		if imp.Path() == pkgPath {
+			if k, ok := imp.Scope().Lookup(name).(*types.Const); ok {
+				return k.Val().ExactString(), true
+			}
+		}
+	}
+	return "", false
+}
+
+// typeMasks: the masks under which fn compares its parameter with file-type patterns: "mode & K"
+// gives K, any other derivation of the compared value gives "?".
+func typeMasks(fn *ssa.Function) map[string]bool {
+	out := map[string]bool{}
+	for _, b := range fn.Blocks {
+		iff := lastIf(b)
+		if iff == nil {
+			continue
+		}
+		cm, _, ok := cmpOf(iff.Cond)
+		if !ok || cm.op != token.EQL {
+			continue
+		}
+		if k, isK := cm.y.(*ssa.Const); !isK || k.Value == nil {
+			if _, _, _, isTab := tableField(cm.y); !isTab {
+				continue
+			}
+		}
+		v := stripConv(cm.x)
+		if bo, isBin := v.(*ssa.BinOp); isBin && bo.Op == token.AND {
+			if k, isK := bo.Y.(*ssa.Const); isK && k.Value != nil {
+				out[k.Value.ExactString()] = true
+				continue
+			}
+			if k, isK := bo.X.(*ssa.Const); isK && k.Value != nil {
+				out[k.Value.ExactString()] = true
+				continue
+			}
+		}
+		out["?"+v.String()] = true
+	}
+	return out
+}
+
 func c05ModeTables(c *Ctx) {
 	a, b := c.mustFn("StatModeToFilemode"), c.mustFn("FilemodeToStatMode")
 	if a == nil || b == nil {
 		return
+	}
+	// the file type is what is left under the type mask - S_IFMT on the st_mode side, os.ModeType on
+	// the FileMode side; a wider mask lets set-uid/set-gid/sticky (which live outside ModePerm in a
+	// FileMode) turn a directory into "none of the known types", i.e. a regular file
+	for _, side := range []struct {
+		fn        *ssa.Function
+		pkg, name string
+	}{{a, "syscall", "S_IFMT"}, {b, "os", "ModeType"}} {
+		want, ok := c.importedConst(side.pkg, side.name)
+		masks := typeMasks(side.fn)
+		okM := ok && len(masks) == 1 && masks[want]
+		var got []string
+		for m := range masks {
+			got = append(got, m)
+		}
+		sort.Strings(got)
+		c.verdict(okM, fnKey(side.fn)+":type-mask", side.fn.Pos(), fmt.Sprintf("file types are compared under %s.%s", side.pkg, side.name),
+			fmt.Sprintf("file types are not compared under the mask %s.%s (%s) but under %v: bits outside the type field change which case matches", side.pkg, side.name, want, got))
 	}
 	pa, pb := modePairs(a), modePairs(b)
 	for p := range c.tableModePairs(a) {
